@@ -4,6 +4,7 @@
 //! The model reads the first argument and the table (the remapper's answers); the implementation rebuilds the real
 //! objects: the remapper from the mappings and the super-class lists (`remapper_b`), every class from its hint
 //! (`(gen seed)`: the generator below, `(corpus file)`: a javac-compiled class, `(fixture name)`: a hand-built class),
+//! `(asm seed)`: a record class / module descriptor / annotated class assembled to bytes by `c01model` and read by duke,
 //! and checks that the class / table in the request is what it gets (otherwise `skip`).
 use std::cell::RefCell;
 use std::collections::BTreeMap;
@@ -23,7 +24,8 @@ use duke::visitor::method::code::{StackMapData, VerificationTypeInfo};
 use dukebox::storage::{BasicFileAttributes, ClassRepr, IsClass, IsOther, Jar, JarEntry, JarEntryEnum, OpenedJar, ParsedJar, ParsedJarEntry};
 use quill::remapper::{ARemapper, BRemapper, JarSuperProv};
 use quill::tree::names::Namespace;
-use fvh::c07tree::{class_to_sexp, erase, kept, project, ref_to_sexp, refs, Cl, MRef, Ref, S};
+use fvh::c07tree::{class_to_sexp, erase, project, ref_to_sexp, refs, Cl, MRef, Ref, S};
+use fvh::c01model as gm;
 use fvh::mapcodec::{self, M};
 use fvh::rng::Rng;
 use fvh::run::{main_for, Ans, Out, Tier};
@@ -109,9 +111,12 @@ impl<B: BRemapper> BRemapper for ByRef<'_, B> {
 }
 
 fn is_array(n: &JavaStr) -> bool { n.starts_with('[') }
+/// JVMS 4.2.2 unqualified name: what can be the name of a field (mirror of `fieldNameOk`)
+fn field_name_ok(s: &JavaStr) -> bool { !s.is_empty() && !s.chars().any(|c| c == '.' || c == ';' || c == '[' || c == '/') }
+/// the class named by the descriptor of a class type, `L ClassName ;` (mirror of `classOfDesc`; simple text checks, not duke's parser)
 fn class_of_desc(t: &JavaStr) -> Option<&JavaStr> {
-	let s = t.strip_prefix('L')?;
-	s.strip_suffix(';')
+	let s = t.strip_prefix('L')?.strip_suffix(';')?;
+	if !s.starts_with('[') && s.split('/').all(field_name_ok) { Some(s) } else { None }
 }
 
 /// what the remapper answers for a reference (mirror of `applyRef`; composed from the primitives here, not by quill)
@@ -130,28 +135,43 @@ fn apply_ref<B: BRemapper>(q: &Rec<B>, owner: &JavaStr, r: &Ref) -> Option<Ref> 
 		}
 		Ref::EnumConst(t, c) => {
 			let t2 = q.map_desc(t)?;
-			match class_of_desc(t) { None => Ref::EnumConst(t2, c.clone()), Some(k) => Ref::EnumConst(t2, q.map_field(k, c, t)?.0) }
+			match class_of_desc(t) {
+				Some(k) if field_name_ok(c) => Ref::EnumConst(t2, q.map_field(k, c, t)?.0),
+				_ => Ref::EnumConst(t2, c.clone()),
+			}
+		}
+		Ref::RecordDecl(n, d) => {
+			if field_name_ok(n) { let (n, d) = q.map_field(owner, n, d)?; Ref::RecordDecl(n, d) } else { Ref::RecordDecl(n.clone(), q.map_desc(d)?) }
 		}
 	})
 }
-/// what remap.rs does at a position of that kind (mirror of `codeApply`)
-fn code_apply<B: BRemapper>(q: &Rec<B>, owner: &JavaStr, r: &Ref) -> Option<Ref> {
-	match r {
-		Ref::EnumConst(t, c) => Some(Ref::EnumConst(q.map_desc(t)?, c.clone())),
-		x => apply_ref(q, owner, x),
-	}
-}
-/// asks everything the traversal of this class can ask; returns (agree, mapped refs)
-fn ask_class<B: BRemapper>(q: &Rec<B>, c: &Cl) -> (bool, Option<Vec<Ref>>) {
-	let mut agree = true;
+/// asks everything the traversal of this class can ask; returns the remapper's answers (`None`: one of them failed)
+fn ask_class<B: BRemapper>(q: &Rec<B>, c: &Cl) -> Option<Vec<Ref>> {
 	let mut out = Some(Vec::new());
 	for r in refs(c) {
-		let a = apply_ref(q, &c.name, &r);
-		let k = code_apply(q, &c.name, &r);
-		if a != k { agree = false; }
-		match (a, &mut out) { (Some(x), Some(v)) => v.push(x), _ => out = None }
+		// every question is asked (and logged in the table) even after a failure
+		match (apply_ref(q, &c.name, &r), &mut out) { (Some(x), Some(v)) => v.push(x), _ => out = None }
 	}
-	(agree, out)
+	out
+}
+/// the simple name a binary class name spells out (mirror of `spelledSimpleName`): in the last `/`-separated part, what
+/// follows the last `$`, minus leading digits
+fn spelled_simple_name(n: &JavaStr) -> Option<S> {
+	let cps: Vec<u32> = n.chars().map(|c| c.as_u32()).collect();
+	let part: &[u32] = match cps.iter().rposition(|c| *c == '/' as u32) { Some(i) => &cps[i + 1..], None => &cps };
+	let after = &part[part.iter().rposition(|c| *c == '$' as u32)? + 1..];
+	let k = after.iter().take_while(|c| ('0' as u32..='9' as u32).contains(c)).count();
+	let mut out = JavaString::new();
+	for c in &after[k..] { out.push_java(java_string::JavaCodePoint::from_u32(*c)?); }
+	Some(out)
+}
+/// what a consistent renaming makes of an inner name (mirror of `expectedInnerName`)
+fn expected_inner_name(old: &JavaStr, new: &JavaStr, name: &Option<S>) -> Option<S> {
+	name.as_ref().map(|s| if spelled_simple_name(old).as_ref() == Some(s) { spelled_simple_name(new).unwrap_or_else(|| s.clone()) } else { s.clone() })
+}
+fn inner_names_ok(old: &Cl, new: &Cl) -> bool {
+	let (a, b) = (old.ics.as_deref().unwrap_or(&[]), new.ics.as_deref().unwrap_or(&[]));
+	a.len() == b.len() && a.iter().zip(b).all(|(i, j)| j.name == expected_inner_name(&i.inner, &j.inner, &i.name))
 }
 fn strip_class(n: &JavaStr) -> Option<&JavaStr> { n.strip_suffix(".class") }
 fn ask_entry_name<B: BRemapper>(q: &Rec<B>, n: &JavaStr) -> Option<S> {
@@ -216,10 +236,16 @@ fn supers_from(s: &Sexp) -> R<JarSuperProv> {
 
 // ------------------------------------------------------------------ generated classes (public API of duke only: no labels)
 
-const CLASSES: &[&str] = &["a/A", "a/B", "b/C", "D", "a/A$In", "a/A$In$Deep", "a/A$1", "java/lang/Object", "java/lang/String", "p/q/E", "L", "é/Ü", "a/Ann", "a/En"];
+const CLASSES: &[&str] = &["a/A", "a/B", "b/C", "D", "a/A$In", "a/A$In$Deep", "a/A$1", "java/lang/Object", "java/lang/String", "p/q/E", "L", "é/Ü", "a/Ann", "a/En", "a/A$1Local", "a$b/C"];
 const FNAMES: &[&str] = &["f", "g", "x1", "VALUE", "f_1", "RED"];
 const MNAMES: &[&str] = &["m", "run", "get", "<init>", "lambda$0", "value", "clone"];
 const BAD_DESCS: &[&str] = &["L;", "(La/A", "La/A", "[L;", "(L;)V"];
+/// enum type descriptors that are not `L<class>;`: arrays and primitives, and strings quill's lenient `map_desc` lets
+/// through although duke's parser rejects them (no class to look the constant up in)
+const ODD_ENUM_TYPES: &[&str] = &["[La/En;", "[[La/En;", "I", "La.En;", "La/En;x", "La//En;", "La/En;La/En;", "LL;"];
+const ENUM_CLASSES: &[&str] = &["a/En", "a/En", "a/En", "a/A$In", "p/q/E", "é/Ü", "Switches$Color"];
+/// strings that cannot be the name of a field
+const ODD_NAMES: &[&str] = &["a/b", "", "x.y", "RED;", "[f"];
 
 struct Pool { bad: bool, clean: bool }
 impl Pool {
@@ -261,7 +287,10 @@ impl Pool {
 	fn ev(&self, r: &mut Rng, depth: usize) -> ElementValue {
 		match r.below(if depth > 2 { 4 } else { 7 }) {
 			0 => ElementValue::Object(match r.below(4) { 0 => Object::Integer(3), 1 => Object::String(js("a/A")), 2 => Object::Boolean(true), _ => Object::Char(65) }),
-			1 | 2 => ElementValue::Enum { type_name: fd(&self.fdesc(r)), const_name: js(*r.pick(FNAMES)) },
+			1 | 2 => ElementValue::Enum {
+				type_name: fd(&match r.below(10) { 0..=5 => js(&format!("L{};", r.pick(ENUM_CLASSES))), 6 | 7 => js(*r.pick(ODD_ENUM_TYPES)), _ => self.fdesc(r) }),
+				const_name: js(if r.chance(1, 8) { *r.pick(ODD_NAMES) } else { *r.pick(FNAMES) }),
+			},
 			3 => ElementValue::Class(rd(&if r.chance(1, 5) { js("V") } else { self.fdesc(r) })),
 			4 | 5 => ElementValue::AnnotationInterface(self.ann(r, depth + 1)),
 			_ => ElementValue::ArrayType((0..r.below(3)).map(|_| self.ev(r, depth + 1)).collect()),
@@ -308,7 +337,7 @@ impl Pool {
 fn gen_class(seed: u64) -> ClassFile {
 	let mut rng = Rng::new(seed);
 	let r = &mut rng;
-	let p = Pool { bad: r.chance(1, 8), clean: r.chance(3, 5) };
+	let p = Pool { bad: r.chance(1, 8), clean: r.chance(2, 5) };
 	let versions = [Version::V1_5, Version::V1_8, Version::V11, Version::V17];
 	let mut c = ClassFile::new(*r.pick(&versions), ClassAccess::from(r.below(0x40) as u16), ocn(&p.cls(r)),
 		if r.chance(4, 5) { Some(ocn(&p.cls(r))) } else { None }, (0..r.below(3)).map(|_| ocn(&p.cls(r))).collect());
@@ -336,8 +365,12 @@ fn gen_class(seed: u64) -> ClassFile {
 		c.methods.push(m);
 	}
 	if r.chance(1, 3) {
-		c.inner_classes = Some((0..r.range(1, 3)).map(|_| InnerClass { inner_class: cn(&p.cls(r)), outer_class: if r.chance(2, 3) { Some(cn(&p.cls(r))) } else { None },
-			inner_name: if r.chance(2, 3) { Some(js("In")) } else { None }, flags: InnerClassFlags::from(r.below(16) as u16) }).collect());
+		c.inner_classes = Some((0..r.range(1, 3)).map(|_| {
+			// mostly nested classes, with the inner name their name spells out (javac), sometimes another one or none
+			let inner = if r.chance(3, 4) { js(*r.pick(&["a/A$In", "a/A$In$Deep", "a/A$1", "a/A$1Local", "é/Ü$Ü", "a$b/C", "a$b/C$D", "D$9"])) } else { p.any(r) };
+			let inner_name = match r.below(6) { 0 => None, 1 => Some(js(*r.pick(&["In", "Other", "", "1Local"]))), _ => spelled_simple_name(&inner).or_else(|| Some(js("In"))) };
+			InnerClass { inner_class: cn(&inner), outer_class: if r.chance(2, 3) { Some(cn(&p.cls(r))) } else { None }, inner_name, flags: InnerClassFlags::from(r.below(16) as u16) }
+		}).collect());
 	}
 	if r.chance(1, 4) {
 		c.enclosing_method = Some(EnclosingMethod { class: cn(&p.any(r)), method: if r.chance(1, 2) {
@@ -349,11 +382,99 @@ fn gen_class(seed: u64) -> ClassFile {
 	if r.chance(1, 5) { c.nest_host_class = Some(cn(&p.cls(r))); }
 	if r.chance(1, 5) { c.nest_members = Some((0..r.range(1, 2)).map(|_| cn(&p.cls(r))).collect()); }
 	if r.chance(1, 6) { c.permitted_subclasses = Some((0..r.range(1, 2)).map(|_| cn(&p.cls(r))).collect()); }
-	if !p.clean && r.chance(1, 5) { c.record_components = vec![RecordComponent::new(unsafe { duke::tree::record::RecordName::from_inner_unchecked(js("f")) }, fd(&p.fdesc(r)))]; }
-	if !p.clean && r.chance(1, 5) { c.module_main_class = Some(cn(&p.cls(r))); }
+	if !p.clean && r.chance(1, 4) {
+		// through the public constructor: components without annotations (annotated ones: `gen_asm`); sometimes next to the field they belong to
+		c.record_components = (0..r.range(1, 3)).map(|_| {
+			let name = js(if r.chance(1, 6) { *r.pick(ODD_NAMES) } else { *r.pick(FNAMES) });
+			let desc = match c.fields.first() { Some(f) if r.chance(1, 2) && name == *f.name.as_inner() => f.descriptor.clone(), _ => fd(&p.fdesc(r)) };
+			RecordComponent::new(unsafe { duke::tree::record::RecordName::from_inner_unchecked(name) }, desc)
+		}).collect();
+	}
+	if !p.clean && r.chance(1, 5) { c.module_main_class = Some(cn(&p.any(r))); }
+	if !p.clean && r.chance(1, 6) {
+		c.module_packages = Some((0..r.below(3)).map(|_| unsafe { duke::tree::module::PackageName::from_inner_unchecked(js(*r.pick(&["a", "p/q", "a/A"]))) }).collect());
+	}
 	c.attributes = p.attrs(r);
 	c
 }
+
+// ------------------------------------------------------------------ classes assembled to bytes (c01model) and read by duke:
+// what the public API of duke cannot build in every tree — annotated record components, module descriptors
+
+fn g(s: &str) -> gm::Js { gm::js(s) }
+struct APool;
+impl APool {
+	fn cls(&self, r: &mut Rng) -> String { (*r.pick(&["a/A", "a/B", "b/C", "D", "a/A$In", "p/q/E", "é/Ü", "a/En", "java/lang/Runnable", "pkg/Impl"])).to_owned() }
+	fn ty(&self, r: &mut Rng) -> String {
+		let base = match r.below(5) { 0 => "I".to_owned(), 1 => "D".to_owned(), _ => format!("L{};", self.cls(r)) };
+		format!("{}{}", "[".repeat(if r.chance(1, 5) { 1 } else { 0 }), base)
+	}
+	fn elem(&self, r: &mut Rng, depth: usize) -> gm::GElem {
+		match r.below(if depth > 1 { 5 } else { 8 }) {
+			0 => gm::GElem::Const(b'I', 7), 1 => gm::GElem::Str(g("a/A")),
+			2 | 3 => gm::GElem::Enum(g(&match r.below(8) { 0 => (*r.pick(ODD_ENUM_TYPES)).to_owned(), _ => format!("L{};", r.pick(ENUM_CLASSES)) }),
+				g(if r.chance(1, 8) { *r.pick(ODD_NAMES) } else { *r.pick(FNAMES) })),
+			4 => gm::GElem::Cls(g(&if r.chance(1, 4) { "V".to_owned() } else { self.ty(r) })),
+			5 | 6 => gm::GElem::Anno(self.anno(r, depth + 1)),
+			_ => gm::GElem::Arr((0..r.below(3)).map(|_| self.elem(r, depth + 1)).collect()),
+		}
+	}
+	fn anno(&self, r: &mut Rng, depth: usize) -> gm::GAnno {
+		gm::GAnno { ty: g(&format!("L{};", if r.chance(1, 2) { "a/Ann".to_owned() } else { self.cls(r) })),
+			pairs: (0..r.below(3)).map(|_| (g(*r.pick(MNAMES)), self.elem(r, depth))).collect() }
+	}
+	fn annos(&self, r: &mut Rng) -> Vec<gm::GAnno> { if r.chance(1, 2) { (0..r.range(1, 2)).map(|_| self.anno(r, 0)).collect() } else { vec![] } }
+	fn tannos(&self, r: &mut Rng) -> Vec<gm::GTypeAnno> {
+		if r.chance(1, 3) { vec![gm::GTypeAnno { target: gm::GTarget::Field, path: if r.chance(1, 2) { vec![] } else { vec![(0, 0)] }, anno: self.anno(r, 1) }] } else { vec![] }
+	}
+	fn attrs(&self, r: &mut Rng) -> Vec<gm::GAttr> { if r.chance(1, 3) { vec![(g(*r.pick(&["Custom", "org.x.Extra"])), vec![0, r.below(250) as u8, 7])] } else { vec![] } }
+}
+
+/// a record class, a module descriptor or an annotated plain class
+fn gen_asm(seed: u64) -> R<ClassFile> {
+	let mut rng = Rng::new(seed ^ 0x5eed_a53b);
+	let r = &mut rng;
+	let p = APool;
+	let mut c = gm::GClass { minor: 0, major: 61, ..Default::default() };
+	match r.below(5) {
+		0 | 1 | 2 => {
+			c.access = 0x31; c.name = g(&p.cls(r)); c.super_ = Some(g("java/lang/Record"));
+			for _ in 0..r.range(1, 3) {
+				let name = if r.chance(1, 8) { *r.pick(ODD_NAMES) } else { *r.pick(FNAMES) };
+				let rc = gm::GRecord { name: g(name), desc: g(&p.ty(r)), signature: if r.chance(1, 4) { Some(g("La/A<Lb/C;>;")) } else { None },
+					rva: p.annos(r), ria: p.annos(r), rvta: p.tannos(r), rita: p.tannos(r), attrs: p.attrs(r) };
+				// the private final field the component belongs to (sometimes missing, sometimes of another type)
+				if r.chance(3, 4) && field_name_ok(&js(name)) { c.fields.push(gm::GField { access: 0x12, name: rc.name.clone(), desc: if r.chance(7, 8) { rc.desc.clone() } else { g(&p.ty(r)) }, attrs: p.attrs(r), ..Default::default() }); }
+				c.records.push(rc);
+			}
+			c.rva = p.annos(r);
+		}
+		3 => {
+			c.access = 0x8000; c.name = g("module-info");
+			c.module = Some(gm::GModule { name: g("m.mod"), flags: *r.pick(&[0u16, 0x20, 0x1000]), version: if r.chance(1, 2) { Some(g("1.0")) } else { None },
+				requires: vec![(g("java.base"), 0x8000, Some(g("17")))],
+				exports: (0..r.below(2)).map(|_| (g("a"), 0, vec![g("other.mod")])).collect(),
+				opens: (0..r.below(2)).map(|_| (g("p/q"), 0, vec![])).collect(),
+				uses: (0..r.below(3)).map(|_| g(&p.cls(r))).collect(),
+				provides: (0..r.below(3)).map(|_| (g(&p.cls(r)), (0..r.range(1, 2)).map(|_| g(&p.cls(r))).collect())).collect() });
+			if r.chance(2, 3) { c.module_packages = Some((0..r.below(3)).map(|_| g(*r.pick(&["a", "p/q", "b"]))).collect()); }
+			if r.chance(2, 3) { c.module_main = Some(g(&p.cls(r))); }
+		}
+		_ => {
+			c.access = 0x21; c.name = g(&p.cls(r)); c.super_ = Some(g("java/lang/Object"));
+			c.rva = p.annos(r); c.ria = p.annos(r);
+			for _ in 0..r.range(1, 2) {
+				c.fields.push(gm::GField { access: 1, name: g(*r.pick(FNAMES)), desc: g(&p.ty(r)), rva: p.annos(r), rvta: p.tannos(r), attrs: p.attrs(r), ..Default::default() });
+			}
+			c.methods.push(gm::GMethod { access: 0x401, name: g(*r.pick(MNAMES)), desc: g("()V"), annotation_default: if r.chance(1, 2) { Some(p.elem(r, 0)) } else { None },
+				rva: p.annos(r), attrs: p.attrs(r), ..Default::default() });
+		}
+	}
+	c.attrs = p.attrs(r);
+	let bytes = gm::assemble(&c, &gm::Choices::plain(), r);
+	duke::read_class(&mut Cursor::new(bytes)).map_err(|e| format!("{e:#}"))
+}
+fn hint_sexp_asm(seed: u64) -> Sexp { Sexp::list(vec![Sexp::tag("asm"), Sexp::Atom(seed.to_string())]) }
 
 /// hand-built classes for the witnesses of the findings (stable request lines)
 fn fixture(name: &str) -> Option<ClassFile> {
@@ -368,7 +489,20 @@ fn fixture(name: &str) -> Option<ClassFile> {
 		"condy" => code.instructions.push(ins(Instruction::Ldc(Loadable::Dynamic(ConstantDynamic { name: fnm(&js("k")), descriptor: fd(&js("La/A;")), handle: bsm, arguments: vec![] })))),
 		"enum" => c.runtime_visible_annotations = vec![Annotation { annotation_type: fd(&js("La/Ann;")), element_value_pairs: vec![
 			ElementValuePair { name: js("value"), value: ElementValue::Enum { type_name: fd(&js("La/En;")), const_name: js("RED") } }] }],
+		"enum-array" => c.runtime_visible_annotations = vec![Annotation { annotation_type: fd(&js("La/Ann;")), element_value_pairs: vec![
+			ElementValuePair { name: js("value"), value: ElementValue::ArrayType(vec![
+				ElementValue::Enum { type_name: fd(&js("La/En;")), const_name: js("RED") },
+				ElementValue::Enum { type_name: fd(&js("[La/En;")), const_name: js("RED") },
+				ElementValue::Enum { type_name: fd(&js("La/En;")), const_name: js("RED;") }]) }] }],
 		"attrs" => c.attributes = vec![Attribute { name: js("Custom"), bytes: vec![1, 2, 3] }],
+		"attrs-all" => {
+			c.attributes = vec![Attribute { name: js("Custom"), bytes: vec![1, 2, 3] }];
+			let mut f = Field::new(FieldAccess::from(1), fnm(&js("f")), fd(&js("I")));
+			f.attributes = vec![Attribute { name: js("OnField"), bytes: vec![4] }];
+			c.fields.push(f);
+			m.attributes = vec![Attribute { name: js("OnMethod"), bytes: vec![] }];
+			code.attributes = vec![Attribute { name: js("OnCode"), bytes: vec![5, 6] }];
+		}
 		"record" => c.record_components = vec![RecordComponent::new(unsafe { duke::tree::record::RecordName::from_inner_unchecked(js("f")) }, fd(&js("La/A;")))],
 		"signature" => { let mut f = Field::new(FieldAccess::from(1), fnm(&js("f")), fd(&js("La/A;")));
 			f.signature = Some(unsafe { duke::tree::field::FieldSignature::from_inner_unchecked(js("La/A<La/B;>;")) }); c.fields.push(f); }
@@ -393,6 +527,7 @@ fn class_from_hint(h: &Sexp) -> R<ClassFile> {
 	let [k, v] = h.as_list()? else { return Err("hint".into()) };
 	match k.as_atom()? {
 		"gen" => Ok(gen_class(v.as_atom()?.parse::<u64>().map_err(|e| e.to_string())?)),
+		"asm" => gen_asm(v.as_atom()?.parse::<u64>().map_err(|e| e.to_string())?),
 		"corpus" => corpus_class(&v.as_string()?),
 		"fixture" => fixture(v.as_atom()?).ok_or_else(|| "unknown fixture".to_owned()),
 		o => Err(format!("unknown hint {o}")),
@@ -443,6 +578,7 @@ fn gen_mappings(r: &mut Rng, classes: &[Cl], stats: &mut fvh::run::Stats) -> GMa
 				Ref::MethodRef(m) => { any(&m.cls, &mut names); names.extend(classes_in_desc(&st(&m.desc)));
 					if !st(&m.cls).starts_with('[') { members.push((st(&m.cls), st(&m.name), st(&m.desc), false)); } }
 				Ref::EnumConst(t, k) => { let cs = classes_in_desc(&st(t)); if let Some(o) = cs.first() { members.push((o.clone(), st(k), st(t), true)); } names.extend(cs); }
+				Ref::RecordDecl(n, d) => { names.extend(classes_in_desc(&st(d))); members.push((st(&c.name), st(n), st(d), true)); }
 			}
 		}
 	}
@@ -453,7 +589,11 @@ fn gen_mappings(r: &mut Rng, classes: &[Cl], stats: &mut fvh::run::Stats) -> GMa
 	for n in &names {
 		if !r.chance(density, 100) { continue; }
 		let simple = n.rsplit('/').next().unwrap_or(n).to_owned();
-		let dst = match r.below(8) {
+		// a name that is not a class name (from an odd descriptor) is looked up like any other, but never used to build a target name
+		let valid = |x: &str| class_of_desc(&js(&format!("L{x};"))).is_some();
+		let dst = match if valid(n) { r.below(9) } else { *r.pick(&[0, 1, 9]) } {
+			9 => Some("odd/Target".to_owned()),
+			8 => { stats.hit("map:target-is-another-source-name"); Some(r.pick(&names).clone()).filter(|t| valid(t)).or_else(|| Some(n.clone())) } // chains and swaps: a/A -> a/B while a/B -> b/C
 			0 => Some(n.clone()),                                   // mapped to itself
 			1 => None,                                              // no name in the target namespace
 			2 => Some(format!("r/{simple}")),                       // other package
@@ -634,19 +774,46 @@ fn emit_class_ops(r: &mut Rng, out: &mut Out, class: &ClassFile, hint: &Sexp, wi
 	let (maps, sup) = (g.mappings_sexp(), g.supers_sexp());
 	build_remapper!(mm, prov, b, &maps, &sup, { out.stats.hit("unbuildable-remapper"); return });
 	let q = Rec::new(&b);
-	let (agree, mapped) = ask_class(&q, &m);
-	out.stats.hit(if kept(&m) { "class:kept" } else { "class:with-dropped-parts" });
-	out.stats.hit(if agree { "remapper:agrees-on-copied-positions" } else { "remapper:renames-copied-positions" });
+	let mapped = ask_class(&q, &m);
 	out.stats.hit(if mapped.is_some() { "answers:all-ok" } else { "answers:some-err" });
-	out.stats.add("refs", refs(&m).len() as u64);
+	let rs = refs(&m);
+	out.stats.add("refs", rs.len() as u64);
+	// what the repaired positions look like in this case
+	for (x, y) in rs.iter().zip(mapped.iter().flatten()) {
+		match (x, y) {
+			(Ref::EnumConst(t, c), Ref::EnumConst(_, c2)) => out.stats.hit(
+				if c != c2 { "enum-const:renamed" } else if class_of_desc(t).is_none() { "enum-const:no-class-in-descriptor" }
+				else if !field_name_ok(c) { "enum-const:not-a-field-name" } else { "enum-const:not-renamed" }),
+			(Ref::RecordDecl(n, _), Ref::RecordDecl(n2, _)) => out.stats.hit(
+				if n != n2 { "record-component:renamed" } else if !field_name_ok(n) { "record-component:not-a-field-name" } else { "record-component:not-renamed" }),
+			_ => {}
+		}
+	}
+	if let (Some(ics), true) = (&m.ics, mapped.is_some()) {
+		for i in ics {
+			let new_inner = if is_array(&i.inner) { q.map_desc(&i.inner) } else { q.map_class(&i.inner) };
+			let (Some(n), Some(new_inner)) = (&i.name, new_inner) else { out.stats.hit("inner-name:none"); continue };
+			out.stats.hit(if spelled_simple_name(&i.inner).as_ref() != Some(n) { "inner-name:not-spelled-by-class-name" }
+				else if spelled_simple_name(&new_inner).is_none() { "inner-name:new-name-without-dollar" }
+				else if expected_inner_name(&i.inner, &new_inner, &i.name).as_ref() != Some(n) { "inner-name:renamed" } else { "inner-name:same" });
+		}
+	}
+	if !m.rcs.is_empty() { out.stats.hit(if m.rcs.iter().any(|r| !(r.rva.is_empty() && r.ria.is_empty() && r.rvta.is_empty() && r.rita.is_empty())) { "class:record-annotated-components" } else { "class:record" }); }
+	if let Some(mo) = &m.module { out.stats.hit(if mo.uses.is_empty() && mo.provides.is_empty() { "class:module-without-services" } else { "class:module-uses-provides" }); }
+	if m.mmc.is_some() { out.stats.hit("class:module-main-class"); }
+	if m.mpk.is_some() { out.stats.hit("class:module-packages"); }
+	if !m.attrs.is_empty() { out.stats.hit("unknown-attribute:class"); }
+	if m.fields.iter().any(|f| !f.attrs.is_empty()) { out.stats.hit("unknown-attribute:field"); }
+	if m.methods.iter().any(|x| !x.attrs.is_empty()) { out.stats.hit("unknown-attribute:method"); }
+	if m.methods.iter().any(|x| x.code.as_ref().map_or(false, |c| !c.attrs.is_empty())) { out.stats.hit("unknown-attribute:code"); }
+	if m.rcs.iter().any(|x| !x.attrs.is_empty()) { out.stats.hit("unknown-attribute:record-component"); }
 	let cs = class_to_sexp(&m);
 	let aux = Sexp::list(vec![sup, hint.clone()]);
 	let t = q.t.borrow().to_sexp();
 	out.op("remap-class", &[cs.clone(), maps.clone(), aux.clone(), t.clone()]);
 	out.op("oracle-remap-refs", &[cs.clone(), maps.clone(), aux.clone(), t.clone()]);
-	out.op("oracle-remap-shape", &[cs.clone(), maps.clone(), aux.clone(), t.clone()]);
-	out.op("oracle-code-refs", &[cs.clone(), maps.clone(), aux.clone(), t.clone()]);
-	out.op("oracle-code-shape", &[cs.clone(), maps, aux, t]);
+	if m.ics.is_some() { out.op("oracle-inner-names", &[cs.clone(), maps.clone(), aux.clone(), t.clone()]); }
+	out.op("oracle-remap-shape", &[cs.clone(), maps, aux, t]);
 	if with_refs { out.op("refs", &[cs, hint.clone()]); }
 }
 
@@ -658,18 +825,22 @@ fn corpus_files(tier: Tier) -> Vec<String> {
 	v
 }
 fn corpus_hint(f: &str) -> Sexp { Sexp::list(vec![Sexp::tag("corpus"), Sexp::str(f)]) }
-const FIXTURES: &[&str] = &["indy", "condy", "enum", "attrs", "record", "signature", "plain"];
+const FIXTURES: &[&str] = &["indy", "condy", "enum", "enum-array", "attrs", "attrs-all", "record", "signature", "plain"];
 
 fn gen_jar(r: &mut Rng, files: &[String]) -> Vec<Ent> {
 	let mut es = Vec::new();
 	for _ in 0..r.range(1, 4) {
-		match r.below(8) {
+		match r.below(9) {
 			0 => es.push(Ent { name: (*r.pick(&["a/", "a/b/", "META-INF/"])).to_owned(), kind: EntK::Dir }),
 			1 => es.push(Ent { name: (*r.pick(&["META-INF/MANIFEST.MF", "x.txt", "a/A.clas", "a/A.class.txt", "assets/é.png"])).to_owned(), kind: EntK::Other(vec![1, 2, r.below(250) as u8]) }),
 			2 => es.push(Ent { name: (*r.pick(&["a/A.class", "weird.class", ".class"])).to_owned(), kind: EntK::Other(vec![0xca, 0xfe]) }),   // not a class as far as the jar is concerned
 			3 if !files.is_empty() => {
 				let f = r.pick(files).clone();
 				if let Ok(c) = corpus_class(&f) { es.push(Ent { name: format!("{}.class", c.name.as_inner()), kind: EntK::Class(corpus_hint(&f), c) }); }
+			}
+			7 => {
+				let seed = r.next() % 1_000_000;
+				if let Ok(c) = gen_asm(seed) { es.push(Ent { name: format!("{}.class", c.name.as_inner()), kind: EntK::Class(hint_sexp_asm(seed), c) }); }
 			}
 			k => {
 				let seed = r.next() % 1_000_000;
@@ -691,6 +862,18 @@ fn emit_jar_ops(r: &mut Rng, out: &mut Out, es: &[Ent]) {
 	// entry names that are not the name of a class inside also get renamed sometimes
 	for e in es { if let Some(stem) = e.name.strip_suffix(".class") { if r.chance(1, 3) && !g.classes.iter().any(|c| c.0 == stem) && !stem.is_empty() {
 		g.classes.push((stem.to_owned(), Some(format!("moved/{}", stem.replace('/', "_"))), vec![], vec![])); } } }
+	// a nested class in the jar without a mapping of its own while its outer class is renamed: it keeps its name, and so does its entry
+	for e in es {
+		if let Some((outer, _)) = e.name.strip_suffix(".class").and_then(|stem| stem.rsplit_once('$')) {
+			if !outer.is_empty() && r.chance(1, 3) {
+				let stem = e.name.strip_suffix(".class").unwrap_or("");
+				g.classes.retain(|c| c.0 != stem);
+				for c in g.classes.iter_mut() { c.2.retain(|f| !f.1.contains(&format!("L{stem};"))); c.3.retain(|m| !m.1.contains(&format!("L{stem};"))); }
+				match g.classes.iter_mut().find(|c| c.0 == outer) { Some(c) => c.1 = Some(format!("ren/Outer{}", r.below(2))), None => g.classes.push((outer.to_owned(), Some("ren/Outer".to_owned()), vec![], vec![])) }
+				out.stats.hit("jar:nested-entry-unmapped-outer-renamed");
+			}
+		}
+	}
 	// two entries onto one target name (the later one replaces the earlier one)
 	let stems: Vec<String> = es.iter().filter_map(|e| e.name.strip_suffix(".class").filter(|s| !s.is_empty()).map(|s| s.to_owned())).collect();
 	if stems.len() >= 2 && r.chance(1, 5) {
@@ -726,17 +909,30 @@ fn witnesses(out: &mut Out, regress: bool) {
 		("oracle-full-refs", fx("indy"), GMap { classes: vec![cls("a/A", "r/A"), cls("a/B", "r/B")], supers: vec![] }),
 		("oracle-full-refs", fx("condy"), GMap { classes: vec![cls("a/A", "r/A")], supers: vec![] }),
 		("oracle-full-refs", co("Lambdas.class"), GMap { classes: vec![cls("Lambdas$Shape", "q/Sh")], supers: vec![] }),
-	] } else { vec![
+		// repaired on the branch c07fix (enum constants, record components, unknown attributes, module data)
 		("oracle-full-refs", fx("enum"), GMap { classes: vec![("a/En".into(), Some("r/En".into()), vec![("RED".into(), "La/En;".into(), "GREEN".into())], vec![])], supers: vec![] }),
-		("oracle-full-refs", fx("record"), GMap { classes: vec![cls("a/A", "r/A")], supers: vec![] }),
+		("oracle-full-refs", fx("enum-array"), GMap { classes: vec![("a/En".into(), Some("r/En".into()), vec![("RED".into(), "La/En;".into(), "GREEN".into())], vec![])], supers: vec![] }),
+		("oracle-full-refs", co("Annotated.class"), GMap { classes: vec![("java/lang/annotation/RetentionPolicy".into(), Some("q/Keep".into()),
+			vec![("SOURCE".into(), "Ljava/lang/annotation/RetentionPolicy;".into(), "SRC".into())], vec![])], supers: vec![] }),
+		("oracle-full-refs", co("Ann.class"), GMap { classes: vec![("java/lang/annotation/ElementType".into(), Some("java/lang/annotation/ElementType".into()),
+			vec![("FIELD".into(), "Ljava/lang/annotation/ElementType;".into(), "F".into()), ("TYPE_USE".into(), "Ljava/lang/annotation/ElementType;".into(), "U".into())], vec![])], supers: vec![] }),
+		("oracle-full-refs", fx("record"), GMap { classes: vec![("x/X".into(), Some("r/X".into()), vec![("f".into(), "La/A;".into(), "renamed".into())], vec![]), cls("a/A", "r/A")], supers: vec![] }),
 		("oracle-full-shape", fx("record"), GMap::default()),
 		("oracle-full-shape", fx("attrs"), GMap::default()),
+		("oracle-full-shape", fx("attrs-all"), GMap::default()),
+		("oracle-full-shape", co("module-info.class"), GMap::default()),
+		("oracle-full-refs", co("module-info.class"), GMap { classes: vec![cls("pkg/Impl", "q/Impl2"), cls("java/lang/Runnable", "q/Run")], supers: vec![] }),
+		("oracle-full-shape", co("Point.class"), GMap::default()),
+		("oracle-full-refs", co("Point.class"), GMap { classes: vec![("Point".into(), Some("q/P".into()), vec![("y".into(), "D".into(), "why".into())], vec![]), cls("Ann", "q/Ann")], supers: vec![] }),
+		// inner names
+		("oracle-full-names", co("Nested$Inner.class"), GMap { classes: vec![cls("Nested$Inner", "Nested$Renamed")], supers: vec![] }),
+		("oracle-inner-names", co("Nested$Inner.class"), GMap { classes: vec![cls("Nested$Inner", "q/Other$Renamed"), cls("Nested$Inner$Deep", "q/Other$Renamed$Deeper")], supers: vec![] }),
+		("oracle-inner-names", co("Nested$1Local.class"), GMap { classes: vec![cls("Nested$1Local", "Nested$2Moved")], supers: vec![] }),
+		("oracle-inner-names", co("Nested.class"), GMap { classes: vec![cls("Nested$1Local", "Nested$2Moved"), cls("Nested$StaticInner", "q/Flat"), cls("Nested$Callback", "Nested$Cb")], supers: vec![] }),
+	] } else { vec![
 		("oracle-full-names", fx("signature"), GMap { classes: vec![cls("a/A", "r/A")], supers: vec![] }),
 		("oracle-full-names", co("Generics.class"), GMap { classes: vec![cls("Generics", "q/G")], supers: vec![] }),
 		("oracle-full-names", co("Annotated.class"), GMap { classes: vec![("Ann".into(), Some("Ann".into()), vec![], vec![("name".into(), "()Ljava/lang/String;".into(), "label".into())])], supers: vec![] }),
-		("oracle-full-names", co("Nested$Inner.class"), GMap { classes: vec![cls("Nested$Inner", "Nested$Renamed")], supers: vec![] }),
-		("oracle-full-shape", co("module-info.class"), GMap::default()),
-		("oracle-full-shape", co("Point.class"), GMap::default()),
 	] };
 	for (op, (class, hint), g) in cases {
 		let Some(class) = class else { continue };
@@ -763,21 +959,31 @@ fn gen(r: &mut Rng, tier: Tier, out: &mut Out) {
 		out.stats.hit("corpus:class");
 		for i in 0..(if th { 40 } else { 5 }) { emit_class_ops(r, out, &c, &corpus_hint(f), i == 0); }
 	}
-	for i in 0..(if th { 12000 } else { 500 }) {
+	for i in 0..(if th { 12000 } else { 600 }) {
 		let seed = r.next() % 1_000_000_000;
 		let c = gen_class(seed);
 		emit_class_ops(r, out, &c, &hint_sexp_gen(seed), i % 5 == 0);
+	}
+	for i in 0..(if th { 8000 } else { 400 }) {
+		let seed = r.next() % 1_000_000_000;
+		match gen_asm(seed) {
+			Ok(c) => { out.stats.hit("asm:read"); emit_class_ops(r, out, &c, &hint_sexp_asm(seed), i % 5 == 0); }
+			Err(_) => out.stats.hit("asm:rejected-by-reader"),
+		}
 	}
 	for _ in 0..(if th { 3000 } else { 150 }) {
 		let es = gen_jar(r, &files);
 		emit_jar_ops(r, out, &es);
 	}
 	// entry names: the rewrite looks at the name alone
-	let names = ["a/A.class", ".class", "a/A.class.class", "A.CLASS", "a/A.clas", "a/A.class/", "META-INF/MANIFEST.MF", "", "é/Ü.class", "a/A$In.class", "a.b.class", "class", "x/.class"];
+	let names = ["a/A.class", ".class", "a/A.class.class", "A.CLASS", "a/A.clas", "a/A.class/", "META-INF/MANIFEST.MF", "", "é/Ü.class", "a/A$In.class", "a.b.class", "class", "x/.class",
+		"a/A$In$Deep.class", "a/A$1.class", "$.class", "a$b/C.class"];
 	for n in names {
 		for _ in 0..(if th { 10 } else { 2 }) {
 			let stem = n.strip_suffix(".class").unwrap_or("zz/Q");
-			let g = GMap { classes: if r.chance(2, 3) && !stem.is_empty() { vec![(stem.to_owned(), Some(format!("q/{}", r.below(3))), vec![], vec![])] } else { vec![] }, supers: vec![] };
+			let mut g = GMap { classes: if r.chance(2, 3) && !stem.is_empty() { vec![(stem.to_owned(), Some(format!("q/{}", r.below(3))), vec![], vec![])] } else { vec![] }, supers: vec![] };
+			// only the outer class of a nested one is renamed (sometimes in addition)
+			if let Some((outer, _)) = stem.rsplit_once('$') { if !outer.is_empty() && r.chance(1, 2) { g.classes.push((outer.to_owned(), Some("q/Outer".to_owned()), vec![], vec![])); if r.chance(1, 2) { g.classes.remove(0); } } }
 			let (maps, sup) = (g.mappings_sexp(), g.supers_sexp());
 			build_remapper!(mm, prov, b, &maps, &sup, continue);
 			let q = Rec::new(&b);
@@ -805,51 +1011,30 @@ fn exec(op: &str, args: &[Sexp]) -> Ans {
 	let q = Rec::new(&b);
 	if !tr!(table_consistent(&q, table)) { return Ans::Skip("table differs from the remapper's answers".into()); }
 	match op {
-		"remap-class" | "oracle-remap-refs" | "oracle-remap-shape" | "oracle-code-refs" | "oracle-code-shape" | "oracle-full-refs" | "oracle-full-shape" | "oracle-full-names" => {
+		"remap-class" | "oracle-remap-refs" | "oracle-remap-shape" | "oracle-inner-names" | "oracle-full-refs" | "oracle-full-shape" | "oracle-full-names" => {
 			let Ok(class) = class_from_hint(hints) else { return Ans::Skip("hint".into()) };
 			let m = project(&class);
 			if class_to_sexp(&m) != *subject { return Ans::Skip("class differs from its hint".into()); }
 			let res = dukebox::remap::remap_class(&b, class);
 			match op {
 				"remap-class" => match res { Ok(c) => Ans::Ok(class_to_sexp(&project(&c))), Err(_) => Ans::err() },
-				"oracle-remap-refs" => {
-					// independent reference renaming: the answers of the remapper for the references of the input
-					let (agree, expected) = ask_class(&q, &m);
-					if !(kept(&m) && agree) { return Ans::out_of_domain(); }
-					match (res, expected) {
+				"oracle-remap-refs" | "oracle-full-refs" => {
+					// `remap_refs`: independent reference renaming — the answers of the remapper for the references of the input, on every class
+					match (res, ask_class(&q, &m)) {
 						(Ok(c), Some(e)) => if refs(&project(&c)) == e { Ans::pass() } else { Ans::fail("refs") },
 						(Err(_), None) => Ans::pass(),
 						(Ok(_), None) => Ans::fail("refs"),     // a failing answer was swallowed
 						(Err(_), Some(_)) => Ans::fail("refs"), // failed although every answer was there
 					}
 				}
-				"oracle-code-refs" => {
-					// `remap_refs_code`: on every class, the references of the result are `codeApply` of the references of the stripped input
-					let st = strip(&m);
-					let expected: Option<Vec<Ref>> = refs(&st).iter().map(|r| code_apply(&q, &m.name, r)).collect();
-					match (res, expected) {
-						(Ok(c), Some(e)) => if refs(&project(&c)) == e { Ans::pass() } else { Ans::fail("refs") },
-						(Err(_), None) => Ans::pass(),
-						_ => Ans::fail("refs"),
-					}
-				}
-				"oracle-code-shape" => match res { Err(_) => Ans::out_of_domain(), Ok(c) => if erase(&project(&c)) == erase(&strip(&m)) { Ans::pass() } else { Ans::fail("shape") } },
-				"oracle-full-refs" => {
-					let (_, expected) = ask_class(&q, &m);
-					match (res, expected) {
-						(Ok(c), Some(e)) => if refs(&project(&c)) == e { Ans::pass() } else { Ans::fail("refs") },
-						(Err(_), None) => Ans::pass(),
-						_ => Ans::fail("refs"),
-					}
-				}
 				"oracle-full-names" => {
 					let Ok(c) = res else { return Ans::out_of_domain() };
 					full_names(maps, &m, &project(&c))
 				}
-				_ => {
-					if op == "oracle-remap-shape" && !kept(&m) { return Ans::out_of_domain(); }
-					match res { Err(_) => Ans::out_of_domain(), Ok(c) => if erase(&project(&c)) == erase(&m) { Ans::pass() } else { Ans::fail("shape") } }
-				}
+				// `remap_inner_name`
+				"oracle-inner-names" => match res { Err(_) => Ans::out_of_domain(), Ok(c) => if inner_names_ok(&m, &project(&c)) { Ans::pass() } else { Ans::fail("inner-name") } },
+				// `remap_shape`: everything that is not a reference position is unchanged, whenever the remap succeeds
+				_ => match res { Err(_) => Ans::out_of_domain(), Ok(c) => if erase(&project(&c)) == erase(&m) { Ans::pass() } else { Ans::fail("shape") } },
 			}
 		}
 		"remap-jar" | "oracle-entries" | "oracle-reopen" => {
@@ -859,7 +1044,6 @@ fn exec(op: &str, args: &[Sexp]) -> Ans {
 			let others: Vec<Option<Vec<u8>>> = pj.entries.values().map(|e| match &e.content { JarEntryEnum::Other(d) => Some(d.clone()), _ => None }).collect();
 			// domain shared by the jar oracles: every entry can be remapped and the new names are pairwise different
 			let expected: Vec<Option<S>> = names.iter().map(|n| ask_entry_name(&q, &js(n))).collect();
-			let classes_ok = cls.iter().all(|c| ask_class(&q, c).1.is_some() || false) ;
 			let mut seen = std::collections::HashSet::new();
 			let in_domain = expected.iter().all(|e| e.is_some()) && expected.iter().all(|e| seen.insert(e.clone()));
 			if op == "oracle-reopen" {
@@ -872,8 +1056,7 @@ fn exec(op: &str, args: &[Sexp]) -> Ans {
 			match op {
 				"remap-jar" => match res { Ok(j) => Ans::Ok(tr!(result_jar_sexp(&j))), Err(_) => Ans::err() },
 				"oracle-entries" => {
-					let _ = classes_ok;
-					let Ok(j) = res else { return if in_domain && cls.iter().all(|c| code_ok(&q, c)) { Ans::fail("failed") } else { Ans::out_of_domain() } };
+					let Ok(j) = res else { return if in_domain && cls.iter().all(|c| ask_class(&q, c).is_some()) { Ans::fail("failed") } else { Ans::out_of_domain() } };
 					if !in_domain { return Ans::out_of_domain(); }
 					if j.entries.len() != names.len() { return Ans::fail("entries"); }
 					let mut ci = 0;
@@ -955,29 +1138,7 @@ fn full_names(maps: &Sexp, old: &Cl, new: &Cl) -> Ans {
 			if let Some((_, nn)) = ms.iter().find(|m| m.0 == *n) { if nn != n2 { return Ans::fail("element-name"); } }
 		}
 	}
-	if let (Some(a), Some(b)) = (&old.ics, &new.ics) {
-		for (i, j) in a.iter().zip(b) {
-			let last = |n: &S| n.to_string().rsplit_once('$').map(|(_, s)| s.to_owned());
-			if let (Some(s), Some(o), Some(nw)) = (&i.name, last(&i.inner), last(&j.inner)) {
-				if o == s.to_string() && j.name.as_ref().map(|x| x.to_string()) != Some(nw) { return Ans::fail("inner-name"); }
-			}
-		}
-	}
+	if !inner_names_ok(old, new) { return Ans::fail("inner-name"); }
 	Ans::pass()
 }
-/// the class without what remap.rs drops (mirror of `strip`)
-fn strip(c: &Cl) -> Cl {
-	let mut s = c.clone();
-	s.module = None; s.mpk = None; s.mmc = None; s.rcs.clear(); s.attrs.clear();
-	for f in &mut s.fields { f.attrs.clear(); }
-	for m in &mut s.methods { m.attrs.clear(); if let Some(code) = &mut m.code { code.attrs.clear(); } }
-	s
-}
-/// every answer the code needs for this class is there (the model's remap succeeds)
-fn code_ok<B: BRemapper>(q: &Rec<B>, c: &Cl) -> bool {
-	let mut stripped = c.clone();
-	stripped.rcs.clear();
-	refs(&stripped).iter().all(|r| code_apply(q, &c.name, r).is_some())
-}
-
 fn main() { main_for(&gen, &exec) }
